@@ -367,6 +367,10 @@ def run(ctx):
             P = one_history(ctx, gid, n_steps, mon)
             if gid == 0:
                 ctx.sample({"history": 0, "pool": [l for l, _o, _s in P.members][:60], "steps": n_steps})
+    # thorough tier: the repository's own tests as a workload under the global monitors (vp/suite_workload.py)
+    from .. import suite_workload
+
+    suite_workload.run(ctx, "C13")
     ctx.notes["operand_monitor"] = {"boundary_calls_observed": mon.n_calls, "operand_snapshots_compared": mon.n_snapshots}
     ctx.inconclusive_if(mon.n_snapshots < 1000, "operand monitor compared fewer than 1000 snapshots")
     ctx.inconclusive_if(probe.BOUNDARY["Scalar.__reduce__"] == 0 and probe.COUNTS["Scalar.__reduce__"] == 0, "pickle path never reached")
